@@ -1,6 +1,6 @@
 #!/bin/bash
 # usage: tools/vmut.sh <patch> <UNIT>...  -- dev: apply patch to the clean dev worktree and run Verus files of the units (no Kani)
 patch=$1; shift
-cd /tmp/repo-clean && git checkout -q -- . && git apply $patch || exit 3
-for u in "$@"; do echo "--- $u"; (cd /verif && VERIF_REPO=/tmp/repo-clean LOOPDEV=$u python3 tools/vdev.py ${VDEV_UNIT:-LOOPDEV} _loop 2>&1 | grep -E "^==|^-- |^Trace|LostAnchor" | head -8); done
-cd /tmp/repo-clean && git checkout -q -- .
+cd /tmp/repo-dev && git checkout -q -- . && git apply $patch || exit 3
+for u in "$@"; do echo "--- $u"; (cd /verif && VERIF_REPO=/tmp/repo-dev LOOPDEV=$u python3 tools/vdev.py ${VDEV_UNIT:-LOOPDEV} _loop 2>&1 | grep -E "^==|^-- |^Trace|LostAnchor" | head -8); done
+cd /tmp/repo-dev && git checkout -q -- .
